@@ -145,6 +145,13 @@ class Controller:
         self.errors = {}
         self.nresp = 0
         self.c04_expected, self.c04_rewindable, self.c04_nr, self.c04_bad = [], True, False, []
+        self.aux_msgs = set()
+        self.after_start_suspender = False
+        self.mot_calls = []
+        self.c11_stop_bad = []
+        _Mot.ledger = self.mot_calls.append
+        self.n_susp = 0
+        self.suspend_plans = any(str(lab).startswith("pre") for lab, _ in self.decisions)
 
     NONREPLAYABLE = ("pause", "subscribe", "unsubscribe", "stage", "unstage", "monitor", "unmonitor", "open_run", "close_run",
                      "install_suspender", "remove_suspender", "_start_suspender")
@@ -182,12 +189,19 @@ class Controller:
             self.c04_expected = []
 
     def on_msg(self, msg):
+        if self.after_start_suspender:
+            # the message right after _start_suspender: the handler has run, every moved device must have been told to stop
+            self.after_start_suspender = False
+            if self.mot_calls and self.mot_calls[-1] != "stop" and "set" in self.mot_calls:
+                self.c11_stop_bad.append("the motor was set but not told to stop when the suspension started")
+        if msg.command == "_start_suspender":
+            self.after_start_suspender = True
         self.c04_update(msg)
         replayed = id(msg) in self.seen_msgs
         self.seen_msgs.add(id(msg))
         self.keep = getattr(self, "keep", [])
         self.keep.append(msg)
-        self.trace.append(("msg", msg.command, replayed))
+        self.trace.append(("msg", msg.command, replayed, id(msg) in self.aux_msgs))
         if msg.command == "clear_checkpoint":
             self.section_nr = True
         elif msg.command == "checkpoint":
@@ -321,7 +335,13 @@ class Controller:
             if self.release is None or self.release.is_set():
                 self.release = asyncio.Event()
             rel = self.release
-            in_thread(lambda: RE.request_suspend(rel.wait))
+            if self.suspend_plans:
+                n = self.n_susp
+                self.n_susp += 1
+                pre, post = self.aux_plan(f"pre{n}"), self.aux_plan(f"post{n}")
+                in_thread(lambda: RE.request_suspend(rel.wait, pre_plan=pre, post_plan=post, justification="beam dump"))
+            else:
+                in_thread(lambda: RE.request_suspend(rel.wait))
         elif kind == "abort":
             in_thread(lambda: RE.abort("because"))
         elif kind in ("stop", "halt"):
@@ -349,6 +369,19 @@ class Controller:
             self.log.append(("request-raised", repr(e)))
 
     # ---------------------------------------------------------------- plan and commands
+    def aux_plan(self, prefix):
+        """a suspender's pre / post plan: at most the messages the decision list gives it"""
+        while True:
+            d = self.next_decision([prefix + "#"])
+            choice = d[1] if d else "return"
+            if choice in ("return", "raise"):
+                self.trace.append(("aux-done", prefix))
+                return
+            m = MESSAGES[choice]()
+            self.aux_msgs.add(id(m))
+            self.keep_aux = getattr(self, "keep_aux", []) + [m]
+            yield m
+
     def plan(self, prefix="plan"):
         k = 0
         resp = None
@@ -415,6 +448,32 @@ class Controller:
         return await f
 
 
+class _Status:
+    done = True
+    success = True
+
+    def add_callback(self, cb):
+        pass
+
+
+class _Mot:
+    name = "mot"
+    parent = None
+    ledger = None
+
+    def set(self, *a, **k):
+        if _Mot.ledger is not None:
+            _Mot.ledger("set")
+        return _Status()
+
+    def stop(self, *, success=False):
+        if _Mot.ledger is not None:
+            _Mot.ledger("stop")
+
+
+_MOT = _Mot()
+
+
 class _Dev:
     name = "dev"
     parent = None
@@ -429,6 +488,7 @@ class _Dev:
 _DEV = _Dev()
 
 MESSAGES = {
+    "set": lambda: Msg("set", _MOT, 1),
     "stage": lambda: Msg("stage", _DEV), "unstage": lambda: Msg("unstage", _DEV),
     "custom": lambda: Msg("custom"), "custom_async": lambda: Msg("custom_async"), "null": lambda: Msg("null"),
     "checkpoint": lambda: Msg("checkpoint"), "clear_checkpoint": lambda: Msg("clear_checkpoint"),
@@ -517,6 +577,8 @@ def run_native(decisions, msgs):
     out["trace"] = ctl.trace
     out["doomed_bad"] = ctl.doomed_bad
     out["c04_bad"] = ctl.c04_bad
+    out["suspend_plans"] = ctl.suspend_plans
+    out["c11_stop_bad"] = ctl.c11_stop_bad
     out["log"] = ctl.log
     out["plan_exc"] = getattr(ctl, "plan_exc", None)
     out["loop_errors"] = [str(c.get("exception")) for c in ctl.loop.errors]
@@ -528,6 +590,7 @@ def run_native(decisions, msgs):
 
 # ------------------------------------------------------------------------------------------------ native oracles
 def _violations(obligation, res):
+    art_obligation = obligation
     """re-statement of the obligations of contracts/run_mon.py over the native trace"""
     bad = []
     tag = obligation.split("#", 1)[-1]
@@ -647,6 +710,40 @@ def _violations(obligation, res):
                 ok = reason == "because"
             if not ok:
                 bad.append(f"the engine closed a run with exit_status={st!r} reason={reason!r}; licensed: {allowed}, plan {last_plan[0]}, requests {reqs}")
+    elif "_start_suspender#ensures" in art_obligation or "request_suspend#ensures" in art_obligation or "while the plan is suspended" in tag:
+        only_susp = not any(x[0] == "request" and x[1] in ("pause", "pause_defer", "abort", "stop", "halt") for x in res["log"]) and \
+            not any(c["call"] in ("abort", "stop", "halt") for c in res["calls"])
+        phase, released, post_done = None, False, {}
+        n_started = -1
+        for x in tr:
+            if x[0] == "state" and x[1] == "suspending" and phase is None:
+                phase = "requested"
+            elif x[0] == "aux-done":
+                post_done[x[1]] = True
+            elif x[0] == "msg":
+                cmd, aux = x[1], (x[3] if len(x) > 3 else False)
+                if phase == "requested":
+                    if cmd != "_start_suspender" and only_susp and tag.startswith("ensures[once a suspension has taken effect"):
+                        bad.append(f"after the suspension took effect the next message executed was {cmd!r}")
+                    if cmd == "_start_suspender":
+                        phase, n_started = "started", n_started + 1
+                elif phase == "started":
+                    if cmd == "_start_suspender":
+                        n_started += 1
+                    elif cmd == "_resume_from_suspender":
+                        rel = any(y[0] == "request" and y[1] == "release" for y in res["log"])
+                        if not rel and only_susp and tag.startswith("ensures[the plan stays held"):
+                            bad.append("the plan went on although the suspender's condition was never released")
+                        phase = "released"
+                    elif not (cmd in ("rewindable", "wait_for") or aux) and only_susp and tag.startswith("ensures[while suspended only"):
+                        bad.append(f"message {cmd!r} was executed while the plan was suspended")
+                elif phase == "released":
+                    if not (cmd in ("rewindable", "_start_suspender") or aux):
+                        if res.get("suspend_plans") and not post_done.get(f"post{n_started}") and only_susp and tag.startswith("ensures[after the release the post-plan"):
+                            bad.append(f"message {cmd!r} was executed after the release before the post-plan had finished")
+                        phase = None
+        if tag.startswith("ensures[at suspension every device that was moved"):
+            bad.extend(res.get("c11_stop_bad", []))
     elif tag.startswith("invariant[the cache holds exactly") or tag.startswith("requires[what is handed to the rewind"):
         bad.extend(res.get("c04_bad", []))
     elif "no checkpoint in effect never leaves the engine paused" in tag or "no further plan message is executed before the plan's cleanup" in tag:
